@@ -240,7 +240,9 @@ static void chk_batch(const std::vector<T3> &v, long long &ev, const std::string
 static void chk_batch_placed(const std::vector<T3> &v, long long &ev, int only_ro = -1, int only_so = -1)
 {
     size_t n = v.size();
-    u64 *rb = (u64 *)aligned_alloc(64, (3 * n + 32) * sizeof(u64)), *sb = (u64 *)aligned_alloc(64, (3 * n + 32) * sizeof(u64));
+    const size_t bytes = (((3 * n + 32) * sizeof(u64) + 63) / 64) * 64; // aligned_alloc wants a multiple of the alignment
+    u64 *rb = (u64 *)aligned_alloc(64, bytes), *sb = (u64 *)aligned_alloc(64, bytes);
+    if (!rb || !sb) { rep().uncovered("aligned_alloc failed in chk_batch_placed"); free(rb); free(sb); return; }
     for (int ro = 0; ro < 8; ro++)
         for (int so : {0, 1, 3})
         {
